@@ -73,21 +73,7 @@ func sweepA() []Case {
 		env("random", nil, []Seg{{Rnd: n, Seed: uint64(n) + 11}})
 	}
 	b65, b64, b32 := &Node{Rnd: 65, Seed: 1}, &Node{Rnd: 64, Seed: 2}, &Node{Rnd: 32, Seed: 3}
-	shapes := map[string]*Node{
-		"rlp-empty-list":         nL(),
-		"rlp-empty-string":       &Node{},
-		"rlp-one-string":         b65,
-		"rlp-two-items":          nL(b65, b64),
-		"rlp-three-short":        nL(nB([]byte{1}), nB([]byte{2}), nB([]byte{3})),
-		"rlp-three-long":         nL(&Node{Rnd: 66, Seed: 1}, &Node{Rnd: 65, Seed: 2}, &Node{Rnd: 33, Seed: 3}),
-		"rlp-lists-for-items":    nL(nL(b65), nL(b64), nL(b32)),
-		"rlp-four-items":         nL(b65, b64, b32, b32),
-		"rlp-right-shape-random": nL(b65, b64, b32),
-		"rlp-right-shape-zero":   nL(&Node{Fill: 65}, &Node{Fill: 64}, &Node{Fill: 32}),
-		"rlp-right-shape-ff":     nL(&Node{Fill: 65, Byte: 0xff}, &Node{Fill: 64, Byte: 0xff}, &Node{Fill: 32, Byte: 0xff}),
-		"rlp-10k-items":          nL(nRep(10000, b32)),
-		"rlp-nested-1000":        nested(1000),
-	}
+	shapes := envelopeShapes()
 	for _, k := range sortedNodeKeys(shapes) {
 		env(k, &Payload{Tree: shapes[k]}, nil)
 		env(k+"-cut", &Payload{Tree: shapes[k], Cut: 1}, nil)
@@ -113,9 +99,31 @@ func sweepA() []Case {
 	mut("nonce-zero", keep, keep, &Node{Fill: 32})
 	mut("nonce-short", keep, keep, &Node{Rnd: 31, Seed: 6})
 	mut("extra-item", keep, keep, keep, b32)
+	// hand-built envelopes: valid tag around an encrypted part of any length (ecies.Encrypt cannot produce < 16)
+	eciesRawSweep(add, "hold")
 	// two frames back to back (the second one must not be read as part of the handshake)
 	add("valid-hello-then-garbage", WireScript{Frames: []Frame{{Kind: "hello", Len: -1}, {Kind: "raw", Len: -1, Plain: []Seg{{Rnd: 100, Seed: 8}}}}, Cut: -1, End: "hold"})
 	return out
+}
+
+// envelopeShapes: RLP trees that are not the expected handshake message (surfaces a and e).
+func envelopeShapes() map[string]*Node {
+	b65, b64, b32 := &Node{Rnd: 65, Seed: 1}, &Node{Rnd: 64, Seed: 2}, &Node{Rnd: 32, Seed: 3}
+	return map[string]*Node{
+		"rlp-empty-list":         nL(),
+		"rlp-empty-string":       &Node{},
+		"rlp-one-string":         b65,
+		"rlp-two-items":          nL(b65, b64),
+		"rlp-three-short":        nL(nB([]byte{1}), nB([]byte{2}), nB([]byte{3})),
+		"rlp-three-long":         nL(&Node{Rnd: 66, Seed: 1}, &Node{Rnd: 65, Seed: 2}, &Node{Rnd: 33, Seed: 3}),
+		"rlp-lists-for-items":    nL(nL(b65), nL(b64), nL(b32)),
+		"rlp-four-items":         nL(b65, b64, b32, b32),
+		"rlp-right-shape-random": nL(b65, b64, b32),
+		"rlp-right-shape-zero":   nL(&Node{Fill: 65}, &Node{Fill: 64}, &Node{Fill: 32}),
+		"rlp-right-shape-ff":     nL(&Node{Fill: 65, Byte: 0xff}, &Node{Fill: 64, Byte: 0xff}, &Node{Fill: 32, Byte: 0xff}),
+		"rlp-10k-items":          nL(nRep(10000, b32)),
+		"rlp-nested-1000":        nested(1000),
+	}
 }
 
 func repHex(b string, n int) string {
@@ -167,7 +175,10 @@ func randomA(seed uint64, i int) Case {
 	r := run.NewRng(seed, 0xa, uint64(i))
 	w := WireScript{Cut: -1, End: []string{"close", "hold"}[r.Intn(2)], Chunks: chunkSets[r.Intn(len(chunkSets))]}
 	kind := ""
-	switch r.Intn(6) {
+	switch r.Intn(7) {
+	case 6: // hand-built envelope, mostly around the block size
+		w.Frames = []Frame{randomEciesRaw(r)}
+		kind = "rnd-" + eciesRawKind(segLen(w.Frames[0].Plain), w.Frames[0].Mac)
 	case 0: // valid hello, cut somewhere, odd splits
 		w.Frames = []Frame{{Kind: "hello", Len: -1}}
 		w.Cut = int64(r.Intn(helloLen + 1))
